@@ -5,6 +5,8 @@ package client
 import (
 	"fmt"
 	"math"
+	"sync/atomic"
+	"time"
 	"reflect"
 	"strconv"
 	"sync"
@@ -65,7 +67,9 @@ type c22Op struct {
 }
 
 type c22Case struct {
-	Kind  string // rr | ll | rnd | rrconc
+	Kind  string // rr | ll | rnd | rrconc | flip
+	Balancer string // flip: rr | ll | rnd
+	Large, Small, Readers, Millis int // flip: pool sizes, reader goroutines, duration
 	Ops   []c22Op
 	Nodes []int // rnd / rrconc
 	Calls int   // rnd: number of calls; rrconc: calls per goroutine
@@ -85,6 +89,9 @@ type c22Out struct {
 	Bits   int            `json:",omitempty"` // rr: width of the cursor field (0: no integer field named next)
 	Steps  []c22Step      `json:",omitempty"`
 	Counts map[string]int `json:",omitempty"` // rnd / rrconc: calls per returned node id ("-1": panic, "-2": nil/unknown)
+	// flip: a writer swaps Set(large)/Set(small) while readers call Next
+	Calls, Flips, Panics, Foreign int
+	FirstPanic, Hung            string `json:",omitempty"`
 }
 
 func c22Weight(s string) float64 {
@@ -266,7 +273,95 @@ func TestVerifC22Balancers(t *testing.T) {
 			}
 			close(start)
 			wg.Wait()
+		case "flip":
+			c22Flip(&c, &out)
 		}
 		w.put(out)
+	}
+}
+
+
+// c22Flip: real goroutines.  One writer keeps replacing the pool (large, small, large, ...) while the
+// readers call Next; every Next must return a node of one of the two pools and must not panic.
+func c22Flip(c *c22Case, out *c22Out) {
+	var b Balancer
+	switch c.Balancer {
+	case "rr":
+		b = NewRoundRobin()
+	case "ll":
+		b = NewLeastLoad()
+	default:
+		b = NewRandom()
+	}
+	large := make([]*Node, c.Large)
+	known := map[*Node]bool{}
+	for i := range large {
+		large[i] = &Node{address: fmt.Sprintf("10.1.%d.%d:3322", i/250, i%250+1), weight: float64(i % 5)}
+		known[large[i]] = true
+	}
+	small := make([]*Node, c.Small)
+	for i := range small {
+		small[i] = &Node{address: fmt.Sprintf("10.2.0.%d:3322", i+1), weight: 1}
+		known[small[i]] = true
+	}
+	b.Set(append([]*Node(nil), large...)...)
+	var stop atomic.Bool
+	var calls, flips, panics, foreign atomic.Int64
+	var first atomic.Pointer[string]
+	var wg sync.WaitGroup
+	wg.Add(1)
+	go func() {
+		defer wg.Done()
+		defer func() {
+			if r := recover(); r != nil {
+				msg := fmt.Sprintf("Set panicked: %v", r)
+				first.CompareAndSwap(nil, &msg)
+				panics.Add(1)
+			}
+		}()
+		for !stop.Load() {
+			b.Set(append([]*Node(nil), small...)...)
+			b.Set(append([]*Node(nil), large...)...)
+			flips.Add(2)
+		}
+	}()
+	for r := 0; r < c.Readers; r++ {
+		wg.Add(1)
+		go func() {
+			defer wg.Done()
+			for !stop.Load() {
+				n, p := c22Next(b)
+				calls.Add(1)
+				if p != "" {
+					msg := fmt.Sprintf("Next panicked after %d calls and %d pool replacements: %s", calls.Load(), flips.Load(), p)
+					first.CompareAndSwap(nil, &msg)
+					panics.Add(1)
+					stop.Store(true)
+					return
+				}
+				if !known[n] {
+					foreign.Add(1)
+					stop.Store(true)
+					return
+				}
+			}
+		}()
+	}
+	done := make(chan struct{})
+	go func() { wg.Wait(); close(done) }()
+	timer := time.NewTimer(time.Duration(c.Millis) * time.Millisecond)
+	select {
+	case <-timer.C:
+	case <-done:
+	}
+	stop.Store(true)
+	select {
+	case <-done:
+	case <-time.After(10 * time.Second):
+		out.Hung = "goroutines still blocked 10 s after the stop flag (mutex left locked?)"
+	}
+	out.Calls, out.Flips, out.Panics, out.Foreign = int(calls.Load()), int(flips.Load()), int(panics.Load()), int(foreign.Load())
+	if p := first.Load(); p != nil {
+		out.FirstPanic = *p
 	}
 }
